@@ -23,9 +23,10 @@ import (
 // ---- chainsim: an executable model of the blockchain party of wallet.Wallet ----
 
 type c15poll struct {
-	at    time.Duration // instant the answer was given
-	err   bool
-	value uint32
+	at      time.Duration // instant the answer was given
+	err     bool          // injected error
+	aborted bool          // the wallet's own context ended the poll before the answer was due
+	value   uint32
 }
 
 type chainsim struct {
@@ -71,7 +72,18 @@ func (c *chainsim) curSeqno() uint32 {
 
 func (c *chainsim) GetSeqno(ctx context.Context, account ton.AccountID) (uint32, error) {
 	if d := c.lat("poll_lat_ms"); d > 0 {
-		time.Sleep(d)
+		// like a real lite client, the chain party honours the context it is given
+		t := time.NewTimer(d)
+		select {
+		case <-t.C:
+		case <-ctx.Done():
+			t.Stop()
+			c.mu.Lock()
+			c.polls = append(c.polls, c15poll{at: c.w.Now(), aborted: true})
+			c.mu.Unlock()
+			c.w.Probe("poll-aborted-by-caller-context")
+			return 0, ctx.Err()
+		}
 	}
 	c.mu.Lock()
 	defer c.mu.Unlock()
@@ -667,7 +679,7 @@ func execC15(t *testing.T, w *core.World, p *run.Plan, r *run.Result) {
 	sawAdvance := false
 	errAfterAdvance := false
 	for _, pl := range chain.polls {
-		if !pl.err && pl.value > sentSeqno {
+		if !pl.err && !pl.aborted && pl.value > sentSeqno {
 			sawAdvance = true
 		}
 	}
